@@ -1002,10 +1002,10 @@ def run(ctx):
 	_raw_buffers(checker, rng)
 	checker.settle()
 	for network in ('symbol', 'nem'):
-		for _ in range(ctx.scale(44, 500)):
+		for _ in range(ctx.scale(44, 350)):
 			_transaction_round(checker, rng, network)
 			checker.settle()
-		for _ in range(ctx.scale(14, 300)):
+		for _ in range(ctx.scale(14, 200)):
 			_message_round(checker, rng, network)
 		checker.settle()
 	for _ in range(ctx.scale(8, 150)):
